@@ -1,7 +1,109 @@
 import Hs.Model.Vx
+import Hs.Model.Ns
+/-
+  Driver glue for C13.  Requests (tokens after `C13`); `G` = `<nrows> {<def|-> <nis> {<item|->}*}*`, names
+  are hex strings, name lists are count-prefixed:
+    sym  G <kq> q.. <ku> u..            per query symbol `q`, joined by `;`:
+                                        sup=..|asup=..|sub=..|asub=..|inh=..|cho=..|conj=..|fits=<the u it fits>
+    refl G <kr> {<ntags> {<tag> <0|1>}*}* <kb> base..
+                                        per record, joined by `;`:  defs=..|fits=<the bases it fits>
+  Every name list is sorted (code point order) and printed as comma-separated hex.
+-/
 namespace Hs.Drv.C13
+open Hs Hs.Vx Hs.Ns
+
+def pRow : P Row := fun ts => do
+  let (n, ts) ← pHO ts
+  let (k, ts) ← pNat ts
+  let (items, ts) ← pRep pHO k ts
+  pure ({ name := n, isRaw := items }, ts)
+
+def pRows : P (List Row) := fun ts => do
+  let (k, ts) ← pNat ts
+  pRep pRow k ts
+
+def pNames : P (List Name) := fun ts => do
+  let (k, ts) ← pNat ts
+  pRep pH k ts
+
+def pTag : P (Name × Bool) := fun ts => do
+  let (n, ts) ← pH ts
+  let (m, ts) ← pNat ts
+  pure ((n, m != 0), ts)
+
+def pRec : P Rec := fun ts => do
+  let (k, ts) ← pNat ts
+  pRep pTag k ts
+
+def pRecs : P (List Rec) := fun ts => do
+  let (k, ts) ← pNat ts
+  pRep pRec k ts
+
+def nameLe : List Char → List Char → Bool
+  | [], _ => true
+  | _ :: _, [] => false
+  | a :: as, b :: bs => if a.toNat < b.toNat then true else if b.toNat < a.toNat then false else nameLe as bs
+
+def showNames (l : List Name) : String :=
+  ",".intercalate ((l.mergeSort nameLe).map H)
+
+def showRes : Res (List Name) → String
+  | .ok l => showNames l
+  | r => "!" ++ r.tag
+
+def symReply (fuel : Nat) (ns : Ns) (u : List Name) (q : Name) : String :=
+  "sup=" ++ showNames (supertypesOf ns.defs q) ++
+  "|asup=" ++ showRes (allSupertypesOf fuel ns q) ++
+  "|sub=" ++ showNames (subtypesOf ns q) ++
+  "|asub=" ++ showRes (allSubtypesOf fuel ns q) ++
+  "|inh=" ++ showRes (inheritance fuel ns q) ++
+  "|cho=" ++ showNames (choicesFor ns q) ++
+  "|conj=" ++ showNames (conjunctsDefs ns q) ++
+  "|fits=" ++ showRes (fitsRow fuel ns q u)
+
+def reflReply (fuel : Nat) (ns : Ns) (bases : List Name) (r : Rec) : String :=
+  match reflect fuel ns r with
+  | .ok ds =>
+    let fit := bases.filter (fun b => match anyFits fuel ns b ds with | .ok true => true | _ => false)
+    let bad := bases.any (fun b => match anyFits fuel ns b ds with | .ok _ => false | _ => true)
+    "defs=" ++ showNames ds ++ "|fits=" ++ (if bad then "!diverge" else showNames fit)
+  | e => "defs=!" ++ e.tag ++ "|fits=!" ++ e.tag
+
+def symReq (ts : List String) : String :=
+  match pRows ts with
+  | none => "bad-request"
+  | some (rows, ts) =>
+    match pNames ts with
+    | none => "bad-request"
+    | some (qs, ts) =>
+      match pNames ts with
+      | none => "bad-request"
+      | some (us, _) =>
+        let ns := make rows
+        let fuel := fuelFor ns.defs
+        "ok " ++ ";".intercalate (qs.map (symReply fuel ns us))
+
+def reflReq (ts : List String) : String :=
+  match pRows ts with
+  | none => "bad-request"
+  | some (rows, ts) =>
+    match pRecs ts with
+    | none => "bad-request"
+    | some (recs, ts) =>
+      match pNames ts with
+      | none => "bad-request"
+      | some (bases, _) =>
+        let ns := make rows
+        let fuel := fuelFor ns.defs
+        "ok " ++ ";".intercalate (recs.map (reflReply fuel ns bases))
 
 /-- requests `C13 <cmd> ...` (tokens after the property id) -/
-def handle (_ts : List String) : String := "bad-request"
+def handle (ts : List String) : String :=
+  match ts with
+  | cmd :: rest =>
+    if cmd = "sym" then symReq rest
+    else if cmd = "refl" then reflReq rest
+    else "bad-request"
+  | [] => "bad-request"
 
 end Hs.Drv.C13
